@@ -84,7 +84,16 @@ TEMPLATES = [
 ]
 
 
+# one-slot templates in which a huge constant is harmless (no loop over it, no arithmetic that could overflow): the value
+# is sometimes taken from the boundaries of the 8/16/32/64-bit push instructions
+BIGSAFE = {"filesize > {0}", "#{s} < {0}", "!{s} != {0}", "#{s} == {0}", "${s} at {0}", "not ${s} at {0}", "all of them at {0}",
+           "defined ${s} at {0}"}
+BOUNDS = [255, 256, 257, 65535, 65536, 65537, (1 << 31) - 1, 1 << 31, (1 << 32) - 1, 1 << 32, (1 << 32) + 1, 1 << 33]
+
+
 def slot_values(rng, tmpl, nslots, nstr, blen):
+    if tmpl in BIGSAFE and rng.random() < 0.3:
+        return [rng.choice(BOUNDS)]
     vals = []
     if "of them" in tmpl and tmpl.startswith("{0}"):
         vals.append(rng.choice([0] + list(range(1, nstr + 1)) * 2) if "%" not in tmpl else rng.choice([1, 25, 50, 100]))
